@@ -309,6 +309,9 @@ type nativeResult struct {
 	AssumeFailed bool     `json:"assume_failed"`
 }
 
+// nativeTier is the tier of the current check (harness bounds depend on it natively too).
+var nativeTier = "quick"
+
 // runNative executes jobs natively for one package through `go test -overlay`.
 func runNative(pkg string, jobs []nativeJob, harnessNames []string, work string, race ...bool) ([]nativeResult, string, error) {
 	ov, pkgName, err := overlayFor(pkg)
@@ -348,7 +351,7 @@ func runNative(pkg string, jobs []nativeJob, harnessNames []string, work string,
 	}
 	cmd := exec.Command("go", append(targs, "./"+pkg)...)
 	cmd.Dir = repoDir
-	cmd.Env = append(os.Environ(), "GOFLAGS=-mod=mod", "GOPROXY=off", "GOSUMDB=off", "GOTOOLCHAIN=local", "VF_JOBS="+jobsFile, "VF_OUT="+outFile)
+	cmd.Env = append(os.Environ(), "GOFLAGS=-mod=mod", "GOPROXY=off", "GOSUMDB=off", "GOTOOLCHAIN=local", "VF_JOBS="+jobsFile, "VF_OUT="+outFile, "VERIF_TIER="+nativeTier)
 	outb, err := cmd.CombinedOutput()
 	var res []nativeResult
 	rb, rerr := os.ReadFile(outFile)
@@ -401,6 +404,7 @@ func checkMain(args []string) int {
 			*budget = 1500
 		}
 	}
+	nativeTier = *tier
 	seed := int64(0)
 	if s := os.Getenv("VERIF_SEED"); s != "" {
 		seed, _ = strconv.ParseInt(s, 10, 64)
@@ -586,7 +590,7 @@ func checkMain(args []string) int {
 						validated++
 						if nr.Failed != "" || nr.AssumeFailed || strings.Join(nr.Observed, ";") != strings.Join(m.Observed, ";") {
 							mismatches++
-							broken = append(broken, fmt.Sprintf("translator validation mismatch in %s: engine %v native %v (failed=%q) model=%s", nr.Harness, m.Observed, nr.Observed, nr.Failed, shortModel(m.Model)))
+							broken = append(broken, fmt.Sprintf("translator validation mismatch in %s: engine %v native %v (failed=%q assume_failed=%v) model=%s", nr.Harness, m.Observed, nr.Observed, nr.Failed, nr.AssumeFailed, fullModel(m.Model)))
 						}
 					}
 				}
@@ -803,4 +807,12 @@ func shortModel(m map[string]string) string {
 		fmt.Fprintf(&sb, "%s=%s ", k, v)
 	}
 	return sb.String()
+}
+
+func fullModel(m map[string]string) string {
+	b, _ := json.Marshal(m)
+	if len(b) > 1500 {
+		b = b[:1500]
+	}
+	return string(b)
 }
